@@ -12,6 +12,7 @@ package main
 import (
 	"fmt"
 	"go/token"
+	"go/types"
 	"sort"
 
 	"golang.org/x/tools/go/ssa"
@@ -514,4 +515,143 @@ func checkTemplateTreeNeverReleased(w *World, r *Report, rule string) {
 	if bad == 0 {
 		r.ok(rule, "(package)", "a template's node tree is never released", "-", fmt.Sprintf("none of the %d release sites is handed a value that derives from Template.nodes", n), true)
 	}
+}
+
+// checkPooledContainersNotData — R01.12: a container that templates can hold is never recycled.
+// For every pool of generic containers (map[string]interface{}, []interface{}): if some value
+// taken from the pool is turned into a template value — boxed into interface{} and stored, passed
+// on or returned (a hash built for a filter argument, a list returned from an evaluation) — then
+// nothing is ever Put into that pool.  A filter may return its argument, `set` may bind it, a
+// global may keep it: the engine cannot know when the last holder is gone, and the next user of
+// the pool would overwrite a value that a variable still refers to — the output then depends on
+// what was rendered in between (and on when the garbage collector emptied the pool).
+func checkPooledContainersNotData(w *World, r *Report, rule string) {
+	isGeneric := func(t types.Type) bool {
+		if t == nil {
+			return false
+		}
+		switch u := t.Underlying().(type) {
+		case *types.Map:
+			it, ok := u.Elem().Underlying().(*types.Interface)
+			return ok && it.NumMethods() == 0
+		case *types.Slice:
+			it, ok := u.Elem().Underlying().(*types.Interface)
+			return ok && it.NumMethods() == 0
+		}
+		return false
+	}
+	n := 0
+	for _, p := range w.pools() {
+		var elem types.Type = p.elem
+		if elem == nil {
+			for _, g := range p.gets {
+				if g.val != nil {
+					elem = g.val.Type()
+				}
+			}
+		}
+		if !isGeneric(elem) {
+			continue
+		}
+		// values taken from the pool: at the Get sites and at the calls of acquiring wrappers
+		var acquired []ssa.Value
+		acquirers := map[*ssa.Function]bool{}
+		for _, g := range p.gets {
+			if g.val == nil {
+				continue
+			}
+			acquired = append(acquired, g.val)
+			instrsOf(g.fn, func(in ssa.Instruction) {
+				if ret, ok := in.(*ssa.Return); ok {
+					for _, res := range retResults(ret) {
+						for _, o := range originChain(res) {
+							if o == g.val {
+								acquirers[g.fn] = true
+							}
+						}
+						if ph, ok := unspill(res).(*ssa.Phi); ok {
+							for _, e := range ph.Edges {
+								if unspill(e) == g.val {
+									acquirers[g.fn] = true
+								}
+							}
+						}
+					}
+				}
+			})
+		}
+		for _, fn := range w.pkgFuncs() {
+			instrsOf(fn, func(in ssa.Instruction) {
+				if c, ok := in.(*ssa.Call); ok {
+					if g := c.Call.StaticCallee(); g != nil && acquirers[g] {
+						acquired = append(acquired, c)
+					}
+				}
+			})
+		}
+		// does one of them become a template value?
+		boxedAt := ""
+		isPutOf := func(in ssa.Instruction) bool {
+			for _, ps := range p.puts {
+				if ps.call == in {
+					return true
+				}
+			}
+			return false
+		}
+		for _, v := range acquired {
+			seen := map[ssa.Value]bool{}
+			var flow func(v ssa.Value, d int)
+			flow = func(v ssa.Value, d int) {
+				if seen[v] || d > 6 || boxedAt != "" || v.Referrers() == nil {
+					return
+				}
+				seen[v] = true
+				for _, ref := range *v.Referrers() {
+					switch x := ref.(type) {
+					case *ssa.Phi:
+						flow(x, d+1)
+					case *ssa.Store:
+						if al, ok := x.Addr.(*ssa.Alloc); ok && x.Val == v && al.Referrers() != nil {
+							for _, r2 := range *al.Referrers() {
+								if l, ok := r2.(*ssa.UnOp); ok && l.Op == token.MUL {
+									flow(l, d+1)
+								}
+							}
+						}
+					case *ssa.MakeInterface:
+						if x.Referrers() == nil {
+							continue
+						}
+						for _, r2 := range *x.Referrers() {
+							if isPutOf(r2) {
+								continue
+							}
+							if _, isDbg := r2.(*ssa.DebugRef); isDbg {
+								continue
+							}
+							boxedAt = w.posOf(x.Pos())
+							if boxedAt == "-" || boxedAt == "" {
+								boxedAt = w.posOf(r2.Pos())
+							}
+						}
+					}
+				}
+			}
+			flow(v, 0)
+		}
+		n++
+		construct := "containers of pool " + p.name + " that become template values are not recycled"
+		switch {
+		case boxedAt == "":
+			r.ok(rule, "(pool "+p.name+")", construct, "-", fmt.Sprintf("none of the %d value(s) taken from the pool is boxed into interface{}", len(acquired)), true)
+		case len(p.puts) == 0:
+			r.ok(rule, "(pool "+p.name+")", construct, "-", "values from the pool become template values (at "+boxedAt+") and nothing is ever Put back", true)
+		default:
+			for _, ps := range p.puts {
+				r.bad(rule, ssaName(ps.fn), "Put into "+p.name, w.posOf(ps.call.Pos()), "a container taken from this pool is handed out as a template value (boxed at "+boxedAt+"): a filter may return it, `set` may bind it — recycling it lets the next user overwrite a value a variable still refers to, so the output depends on what was rendered in between")
+			}
+		}
+	}
+	r.floor("pools of generic containers", n, 1)
 }
